@@ -1172,7 +1172,11 @@ def replay_inputs(ctx, path, rejudge):
     for it in items:
         c = case_from_json(it["case"])
         fmt = tuple(it["format"])
-        if it.get("tag") == "relations":
+        if it.get("tag") == "big":
+            S_ = Suite(None, catii)
+            run_big(S_, it["big_params"], [fmt])
+            b = "; ".join(f["difference"] for f in S_.found[:2]) or None
+        elif it.get("tag") == "relations":
             b = rejudge_relations(catii, case_from_json(it.get("relations_base") or it["case"]), fmt)
         else:
             b = rejudge(catii, c, fmt, it)
@@ -1191,7 +1195,7 @@ def replay_inputs(ctx, path, rejudge):
 # result is judged by the exact oracle - the content of each call is an ordinary case)
 # --------------------------------------------------------------------------
 
-REL_SCENARIOS = ("shift-in-place", "shift-in-place", "shift-in-place", "same-dimension-twice", "fact-is-weights",
+REL_SCENARIOS = ("kept-cube", "kept-cube", "kept-cube", "kept-cube", "shift-in-place", "shift-in-place", "shift-in-place", "same-dimension-twice", "fact-is-weights",
                  "fact-is-dimension", "shared-fact", "shared-fact", "repeat", "calculate-order")
 
 
@@ -1209,7 +1213,14 @@ def relations_case(rng):
     sc = rng.choice(REL_SCENARIOS)
     d = rng.randrange(len(c["exts"]))
     rel = {"scenario": sc, "d": d, "v": rng.randrange(c["exts"][d]), "kinds": [rng.choice(KINDS) for _ in range(5)],
-           "order": rng.sample(range(4), 4), "cubes": [rng.choice("cx") for _ in range(5)]}
+           "order": rng.sample(range(4), 4), "cubes": [rng.choice("cx") for _ in range(5)], "sub_seed": rng.getrandbits(30)}
+    if sc == "kept-cube":
+        c["form_seed"] = None
+        if rng.random() < 0.5:              # count() without an explicit N, weights None / scalar, reads the row count from the dims
+            c["wkind"] = rng.choice(["none", "none", "scalar"])
+            if c["wkind"] == "scalar":
+                c["w"], c["wvalid"], c["whidden"] = rng.choice(W_POOL[2:]), True, "nan"
+            rel["kinds"] = [rng.choice(["count", "count", "mean", "sum", "valid_count"]) for _ in range(5)]
     if sc == "shared-fact":
         rel["kinds"][0] = "mean"            # an unweighted index-cube mean first (it must not touch the caller's NaN markers)
         rel["cubes"][0] = "c"
@@ -1304,6 +1315,93 @@ def run_relations(S, c, fmt):
             S.count("relation-shift:" + ("none" if action is None else "auto" if action[1] is None else
                                          "same" if rel["v"] == c["commons"][d] else "in-data" if rel["v"] in c["arrs"][d] else "absent"))
             check(c_k, "c", res, "%d (%s after %s)" % (step, c_k["kind"], "nothing" if action is None else "dims[%d].%s(%s)" % (d, action[0], "" if action[1] is None else action[1])), fresh)
+    elif sc == "kept-cube":
+        # ONE ccube and ONE xcube built once and kept; between evaluations the cube's own iindex objects (and the array
+        # cube's own arrays) are changed IN PLACE through legitimate operations: update, __setitem__ of an existing key with a
+        # row array of another length, shift_common, append (grows the row count; the array cube is rebuilt then, its arrays
+        # cannot grow in place).  Every evaluation is judged by the oracle on the CURRENT state and against a fresh ccube.
+        import random
+        srng = random.Random(rel["sub_seed"])
+        cur = dict(c, arrs=[list(a) for a in c["arrs"]], commons=list(c["commons"]))
+        dims, cu = cubes_for(cur)
+        xarrs = cu["x"].dims if hasattr(cu["x"], "dims") else None
+        xarrs = [numpy.array(a, dtype=numpy.int64) for a in cur["arrs"]]
+        with warnings.catch_warnings():
+            warnings.simplefilter("ignore")
+            cu["x"] = catii.xcube(xarrs, interacting_shape=tuple(cur["exts"]))
+        nd = len(cur["exts"])
+        for step in range(5):
+            op = "none" if step == 0 else srng.choice(["append", "append", "update", "setitem", "shift_common", "shift_common()"])
+            d = srng.randrange(nd)
+            e = cur["exts"][d]
+            N = cur["N"]
+            if op == "update" and N > 0:
+                rows = sorted(srng.sample(range(N), srng.randint(1, min(3, N))))
+                v = srng.randrange(e)
+                dims[d].update({(v,): numpy.array(rows, dtype=numpy.uint32)})
+                for r in rows:
+                    cur["arrs"][d][r] = v
+                    xarrs[d][r] = v
+            elif op == "setitem" and N > 0:
+                cm = int(dims[d].common)
+                keys = [int(k[0]) for k in dict.keys(dims[d])]
+                commons_rows = [r for r in range(N) if cur["arrs"][d][r] == cm]
+                if keys and commons_rows and srng.random() < 0.6:      # a common row joins a stored category: longer row array
+                    v, r = srng.choice(keys), srng.choice(commons_rows)
+                    rows = sorted([int(x) for x in dims[d][(v,)]] + [r])
+                    dims[d][(v,)] = numpy.array(rows, dtype=numpy.uint32)
+                    cur["arrs"][d][r] = v
+                    xarrs[d][r] = v
+                else:
+                    big = [k for k in keys if len(dims[d][(k,)]) >= 2]
+                    if big:                                             # a stored row falls back to the common: shorter row array
+                        v = srng.choice(big)
+                        rows = [int(x) for x in dims[d][(v,)]]
+                        r = rows.pop(srng.randrange(len(rows)))
+                        dims[d][(v,)] = numpy.array(rows, dtype=numpy.uint32)
+                        cur["arrs"][d][r] = cm
+                        xarrs[d][r] = cm
+                    else:
+                        op = "none"
+            elif op == "shift_common":
+                dims[d].shift_common(srng.randrange(e))
+            elif op == "shift_common()":
+                dims[d].shift_common()
+            elif op == "append":
+                M = srng.randint(1, 4)
+                for k in range(nd):
+                    present = sorted(set(cur["arrs"][k])) or [cur["commons"][k]]
+                    new = [srng.choice(present) for _ in range(M)]          # rows in EXISTING categories: the extents stay right
+                    ocm = srng.choice(present)
+                    dims[k].append(build_index(catii, new, ocm, M))
+                    cur["arrs"][k] = cur["arrs"][k] + new
+                pool = [f for f in FACT_POOL if f.denominator == 1] if cur["fdtype"] == "i8" else FACT_POOL
+                cols = cur["K"] or 1
+                cur["fact"] = cur["fact"] + [[srng.choice(pool) for _ in range(cols)] for _ in range(M)]
+                cur["fvalid"] = cur["fvalid"] + [[srng.random() >= 0.2 for _ in range(cols)] for _ in range(M)]
+                if cur["wkind"] in ("arr", "pair"):
+                    cur["w"] = cur["w"] + [srng.choice(W_POOL) for _ in range(M)]
+                    cur["wvalid"] = cur["wvalid"] + [srng.random() >= 0.2 for _ in range(M)]
+                cur["N"] = N + M
+                xarrs = [numpy.array(a, dtype=numpy.int64) for a in cur["arrs"]]
+                with warnings.catch_warnings():
+                    warnings.simplefilter("ignore")
+                    cu["x"] = catii.xcube(xarrs, interacting_shape=tuple(cur["exts"]))
+                fact, weights = build_fact(cur), build_weights(cur)
+                pristine = (_copy_arg(fact), _copy_arg(weights))
+            else:
+                op = "none" if op not in ("none",) and N == 0 else op
+            cur["commons"] = [int(x.common) for x in dims]
+            S.count("relation-kept-cube-op:" + op)
+            c_k = as_kind(dict(cur, arrs=[list(a) for a in cur["arrs"]]), kinds[step])
+            if is_shortcut(c_k, fmt):
+                c_k = as_kind(c_k, "sum")
+            res = _agg(cu["c"], c_k, fmt, fact, weights)
+            with warnings.catch_warnings():
+                warnings.simplefilter("ignore")
+                fresh = _agg(catii.ccube(dims, interacting_shape=tuple(cur["exts"])), c_k, fmt, fact, weights)
+            check(c_k, "c", res, "%d (%s on the KEPT ccube after %s)" % (step, c_k["kind"], op), fresh)
+            check(c_k, "x", _agg(cu["x"], c_k, fmt, fact, weights), "%d (%s on the kept xcube after %s)" % (step, c_k["kind"], op))
     elif sc == "same-dimension-twice":
         d = rel["d"]
         cc = dict(c, arrs=[c["arrs"][d], c["arrs"][d]], commons=[c["commons"][d]] * 2, exts=[c["exts"][d]] * 2)
@@ -1399,3 +1497,130 @@ def rejudge_relations(catii, c, fmt):
     base = c.get("_rel_base", c)
     run_relations(S, base, fmt)
     return "; ".join(f["difference"] for f in S.found[:3]) or None
+
+
+# --------------------------------------------------------------------------
+# 'big' stream: the array cube on 100 000 - 300 000 rows, judged by a vectorised NumPy oracle only
+# (no Gallina literal; inputs are regenerated from `big_seed` for a replay)
+# --------------------------------------------------------------------------
+
+def big_params(rng, i):
+    kind = ["sum", "sum", "mean", "valid_count", "sum", "count", "mean", "sum"][i % 8]
+    K = None if kind == "count" else [rng.randint(2, 7), None, rng.randint(1, 8), rng.randint(2, 7), rng.randint(2, 7), None, None, 8][i % 8]
+    return {"big_seed": rng.getrandbits(30), "kind": kind, "K": K, "ign": [False, True, False, False, False, True, True, False][i % 8],
+            "N": rng.choice([100000, 100000, 150000, 300000]), "exts": rng.choice([[3], [4], [2, 3], [5], [3, 2]]),
+            "wkind": rng.choice(["none", "none", "arr", "pair"]), "fform": rng.choice(["nan", "pair"])}
+
+
+def big_inputs(p):
+    g = numpy.random.default_rng(p["big_seed"])
+    N, K = p["N"], p["K"]
+    arrs = [g.integers(0, e, size=N).astype(g.choice(["int64", "uint8", "int32"])) for e in p["exts"]]
+    fact = fvalid = None
+    if p["kind"] != "count":
+        shape = (N,) if K is None else (N, K)
+        vals = g.integers(-24, 25, size=shape) / 4.0
+        fvalid = g.random(shape) >= 2e-5 * g.integers(0, 4, size=(1,) if K is None else (1, K))     # a few missing rows; some columns none
+        if K is not None and K >= 2:
+            fvalid[:, 0] = g.random(N) >= 3e-5                                                       # a NON-last column always has some
+        fact = (numpy.where(fvalid, vals, 777.0), fvalid) if p["fform"] == "pair" else numpy.where(fvalid, vals, numpy.nan)
+    w = wvalid = wv = None
+    if p["wkind"] != "none":
+        wv = g.integers(0, 9, size=N) / 4.0
+        wvalid = g.random(N) >= 2e-5
+        w = (numpy.where(wvalid, wv, -5.0), wvalid) if p["wkind"] == "pair" else numpy.where(wvalid, wv, numpy.nan)
+    return arrs, fact, fvalid, vals if fact is not None else None, w, wvalid, wv
+
+
+def big_oracle(p, arrs, fvalid, vals, wvalid, wv):
+    """(value, missing) per (cell, column) - the rule of the property text, vectorised (numpy.add.at)"""
+    N = p["N"]
+    size = 1
+    flat = numpy.zeros(N, dtype=numpy.int64)
+    for a, e in zip(arrs, p["exts"]):
+        flat = flat * e + a.astype(numpy.int64)
+        size *= e
+    cols = 1 if p["K"] is None else p["K"]
+    wt = numpy.ones(N) if wv is None else wv
+    wok = numpy.ones(N, dtype=bool) if wvalid is None else wvalid
+    value = numpy.zeros((size, cols))
+    missing = numpy.zeros((size, cols), dtype=bool)
+    rows = numpy.zeros(size)
+    numpy.add.at(rows, flat, 1)
+    for k in range(cols):
+        if p["kind"] == "count":
+            ok, x = wok, numpy.ones(N)
+        else:
+            fv = fvalid if p["K"] is None else fvalid[:, k]
+            ok = wok & fv
+            x = vals if p["K"] is None else vals[:, k]
+        nvalid = numpy.zeros(size)
+        numpy.add.at(nvalid, flat[ok], 1)
+        den = numpy.zeros(size)
+        numpy.add.at(den, flat[ok], wt[ok])
+        num = numpy.zeros(size)
+        numpy.add.at(num, flat[ok], (wt * x)[ok])
+        miss = nvalid == 0
+        if not p["ign"]:
+            miss = miss | (nvalid != rows)
+        if p["kind"] in ("count", "valid_count"):
+            v = den
+        elif p["kind"] == "sum":
+            v = num
+        else:
+            miss = miss | (den == 0)
+            with numpy.errstate(all="ignore"):
+                v = numpy.where(den == 0, 0.0, num / numpy.where(den == 0, 1.0, den))
+        value[:, k], missing[:, k] = v, miss
+    return value, missing
+
+
+def run_big(S, p, formats):
+    """one big case under every given report format on the real xcube; returns the number of calls"""
+    catii = S.catii
+    arrs, fact, fvalid, vals, w, wvalid, wv = big_inputs(p)
+    value, missing = big_oracle(p, arrs, fvalid, vals, wvalid, wv)
+    cols = 1 if p["K"] is None else p["K"]
+    pseudo = dict(p, arrs=[], commons=[], fact=None, fvalid=None, w=None, wvalid=None, shape_mode="explicit", xdtype="mixed", big=True)
+    S.count("big:%s/%s/%s/%s/N=%d" % (p["kind"], "1-D" if p["K"] is None else "K=%d" % p["K"], "ignore" if p["ign"] else "propagate", p["wkind"], p["N"]))
+    for fmt in formats:
+        if p["kind"] == "valid_count" and fmt[0] == "plain" and not p["ign"]:
+            continue
+        S.calls += 1
+        S.oracle_only += 1
+        bad = None
+        try:
+            with warnings.catch_warnings():
+                warnings.simplefilter("ignore")
+                with numpy.errstate(all="ignore"):
+                    cube = catii.xcube(arrs, interacting_shape=tuple(p["exts"]))
+                    kw = {"weights": w, "ignore_missing": p["ign"], "return_missing_as": fmt_arg(fmt)}
+                    out = getattr(cube, p["kind"])(*([] if p["kind"] == "count" else [fact]), **kw)
+        except Exception as e:
+            bad = "EXC %s: %s" % (type(e).__name__, str(e)[:200])
+        if bad is None:
+            size = value.shape[0]
+            if fmt[0] == "pair":
+                got = numpy.asarray(out[0], dtype=float).reshape(size, cols)
+                gmiss = ~numpy.asarray(out[1], dtype=bool).reshape(size, cols)
+            else:
+                got = numpy.asarray(out, dtype=float).reshape(size, cols)
+                gmiss = numpy.isnan(got) if fmt[0] == "nan" else None
+            if p["kind"] == "valid_count" and fmt[0] == "plain":
+                want_vals, wmiss = value, numpy.zeros_like(missing)
+            else:
+                want_vals, wmiss = numpy.where(missing, float(fmt[1]) if fmt[0] != "nan" else 0.0, value), missing
+            if gmiss is not None and not numpy.array_equal(gmiss, wmiss):
+                u, k = (int(x) for x in numpy.argwhere(gmiss != wmiss)[0])
+                bad = "cell %d col %d: %s, expected %s (missing cells differ in %d places)" % (u, k, "missing" if gmiss[u, k] else "value %r" % got[u, k],
+                                                                                                "missing" if wmiss[u, k] else "value %r" % value[u, k], int((gmiss != wmiss).sum()))
+            else:
+                cmpv = numpy.where(wmiss, 0.0, got) if fmt[0] == "nan" else got
+                want = numpy.where(wmiss, 0.0, want_vals) if fmt[0] == "nan" else want_vals
+                tol = 1e-9 * max(1.0, float(numpy.abs(value).max()))
+                diff = numpy.abs(numpy.nan_to_num(cmpv, nan=1e300) - want)
+                if (diff > tol).any():
+                    u, k = (int(x) for x in numpy.argwhere(diff > tol)[0])
+                    bad = "cell %d col %d: value %r, expected %r" % (u, k, float(got[u, k]), float(want[u, k]))
+        if bad:
+            S.fail(pseudo, fmt, "x", "big stream (N=%d rows): %s" % (p["N"], bad), {"tag": "big", "big_params": p})
